@@ -131,7 +131,11 @@ def mutate_text(rng, t):
     if k == 'del': return t[:i] + t[i + 1:]
     if k == 'dup': return t[:i] + t[i] + t[i:]
     if k == 'swap': return t[:i] + t[i + 1] + t[i] + t[i + 2:]
-    return t[:i] + rng.choice(['$', '@', ';', '}', '{', ',', '<', '"', "'", '#', '0x', ' type ', ')', '::']) + t[i:]
+    # splice a token in at a token boundary if possible (so that keywords really arrive as keywords)
+    j = t.find(' ', i)
+    j = i if j < 0 else j
+    return t[:j] + rng.choice(['$', '@', ';', '}', '{', ',', '<', '"', "'", '#', '0x', ' type ', ')', '::', ' pub ', ' pub ', ' extern ',
+                               ' fn ', ' impl ', ' use ', ' mut ', ' const ', ' enum ', ' vftable ', ' _ ', ' * ', ' & ', ' -> ', ' = ', ' : ']) + t[j:]
 
 def judge_all(cases, impl, model, tier):
     import random
@@ -188,8 +192,30 @@ def judge_all(cases, impl, model, tier):
                 info['dist'].append('error-position-differs')
             else:
                 fs.append(Finding('K', 'C18/parser-model-differs', cid, canon.first_diff(io, mo) or ''))
-    # one finding per reason is enough for the report; keep the first few
-    return fs, info, second
+    # third phase – over-acceptance: a text the real parser ACCEPTS must be a printing of the module it was
+    # parsed to (same tokens, up to optional separators): a parser that silently drops or invents tokens fails this
+    third = []
+    for c2 in second + [c for c in cases if any(tag(me) == 'tmodule' for me in find(c, 'modules')[1:])]:
+        src = impl2 if c2[1] in impl2 else impl
+        io = src.get(c2[1], {}).get('o1')
+        mods = [me for me in find(c2, 'modules')[1:] if tag(me) == 'tmodule']
+        if io is None or len(mods) != 1 or len(io) != 2 or tag(io[1]) != 'parsed' or find(c2, 'skip-tokeq') is not None:
+            continue
+        m = io[1][2]
+        if len(m[7]) > 1 or '<' in dump(m):
+            continue                     # backend blocks have three spellings and trim their text; `a<b>` is one glued name
+        c3 = case(c2[1] + '?', 4, [modent(path('m'), m)], extras=[[S('orig'), mods[0][2]]])
+        third.append(c3)
+    if third:
+        model3 = core.run_model([sexp.dump(c3) for c3 in third], ['tokeq'], jobs=12)
+        for c3 in third:
+            r = model3.get(c3[1], {}).get('tokeq')
+            if r is None:
+                continue
+            info['dist'].append('accepted-text-token-roundtrip')
+            if len(r) > 1 and r[1] == 0:
+                fs.append(Finding('O', 'C18/accepted-text-is-not-a-printing-of-its-parse', c3[1], dump(r)[:300]))
+    return fs, info, second + third
 
 def core_nodes(x):
     if isinstance(x, list):
